@@ -2107,3 +2107,357 @@ def _infer(prog):
     S.seq_tail = _one(tails, 'the sequence number stepped by submit')
     S.seq_head = _one(heads, 'the sequence number stepped by the worker')
     return S
+
+
+# --------------------------------------------------------------------------
+# C integer arithmetic on expression trees; wrap-safety of comparisons between free-running counters (R-C12i)
+# --------------------------------------------------------------------------
+
+class CUndecided(Exception):
+    pass
+
+
+_CTYPES = {'int': (32, True), 'signed int': (32, True), 'signed': (32, True), 'unsigned int': (32, False), 'unsigned': (32, False),
+           'long': (64, True), 'long int': (64, True), 'unsigned long': (64, False), 'unsigned long int': (64, False),
+           'long long': (64, True), 'long long int': (64, True), 'unsigned long long': (64, False), 'unsigned long long int': (64, False),
+           'short': (16, True), 'short int': (16, True), 'unsigned short': (16, False), 'unsigned short int': (16, False),
+           'char': (8, True), 'signed char': (8, True), 'unsigned char': (8, False), '_Bool': (8, False), 'bool': (8, False),
+           'size_t': (64, False), 'uintptr_t': (64, False), 'uintmax_t': (64, False), 'ssize_t': (64, True), 'intptr_t': (64, True),
+           'ptrdiff_t': (64, True), 'intmax_t': (64, True), 'off_t': (64, True), 'time_t': (64, True)}
+C_INT = (32, True)
+REL_OPS = ('<', '<=', '>', '>=', '==', '!=')
+LOGIC_OPS = ('&&', '||')
+
+
+def ctype(t):
+    """(width in bits, signed) of a C integer type name (LP64), None for anything else"""
+    t = re.sub(r'\b(const|volatile|register|_Atomic)\b', ' ', str(t or ''))
+    t = re.sub(r'\s+', ' ', t).strip()
+    m = re.match(r'^(?:__)?(u?)int(?:_least|_fast)?(8|16|32|64)_t$', t)
+    if m:
+        return (int(m.group(2)), not m.group(1))
+    m = re.match(r'^__([us])(8|16|32|64)$', t)
+    if m:
+        return (int(m.group(2)), m.group(1) == 's')
+    if t.startswith('enum '):
+        return (32, False)
+    return _CTYPES.get(t)
+
+
+def cconv(v, t):
+    """the value v converted to the integer type t (modular; two's complement for signed types)"""
+    w, s = t
+    v &= (1 << w) - 1
+    if s and v >= (1 << (w - 1)):
+        v -= (1 << w)
+    return v
+
+
+def _cpromote(t):
+    return C_INT if t[0] < 32 else t
+
+
+def _ccommon(a, b):
+    a, b = _cpromote(a), _cpromote(b)
+    if a == b:
+        return a
+    if a[1] == b[1]:
+        return a if a[0] >= b[0] else b
+    u, s = (a, b) if not a[1] else (b, a)
+    return u if u[0] >= s[0] else s
+
+
+def _cleaf(x):
+    return isinstance(x, dict) and x.get('k') in ('var', 'member', 'deref', 'index', 'call')
+
+
+def ceval(x, leaf):
+    """(value, type) of the integer expression x under C semantics (integer promotions, usual arithmetic conversions, modular
+    conversion); leaf(node) gives (value, type) of variables / memory reads / calls or raises CUndecided"""
+    if not isinstance(x, dict):
+        raise CUndecided('not an expression')
+    k = x.get('k')
+    if k in ('load', 'paren', 'stmtexpr', 'compound') and isinstance(x.get('e'), dict):
+        return ceval(x['e'], leaf)
+    if k == 'cast':
+        v, t = ceval(x['e'], leaf)
+        to = str(x.get('to') or '')
+        if to.strip() in ('_Bool', 'bool'):
+            return (int(v != 0), (8, False))
+        tt = ctype(to)
+        if tt is None:
+            raise CUndecided('cast to %s' % to)
+        return (cconv(v, tt), tt)
+    if k == 'int':
+        v = x['v']
+        t = ctype(x.get('type')) if x.get('type') else None
+        if t is None:
+            t = C_INT if -(1 << 31) <= v < (1 << 31) else ((32, False) if v < (1 << 32) else ((64, True) if v < (1 << 63) else (64, False)))
+        return (cconv(v, t), t)
+    if k == 'null':
+        return (0, (64, False))
+    if _cleaf(x):
+        return leaf(x)
+    if k == 'incdec':
+        return ceval(x['e'], leaf)                         # value up to +-1: irrelevant for invariance under a common shift
+    if k == 'un':
+        v, t = ceval(x['e'], leaf)
+        op = x['op']
+        if op == '!':
+            return (int(v == 0), C_INT)
+        t = _cpromote(t)
+        if op == '-':
+            return (cconv(-v, t), t)
+        if op == '~':
+            return (cconv(~v, t), t)
+        if op == '+':
+            return (cconv(v, t), t)
+        raise CUndecided('unary %s' % op)
+    if k == 'cond':
+        c, _ = ceval(x['c'], leaf)
+        a, ta = ceval(x['a'], leaf)
+        b, tb = ceval(x['b'], leaf)
+        t = _ccommon(ta, tb)
+        return (cconv(a if c else b, t), t)
+    if k == 'bin':
+        op = x['op']
+        if op in LOGIC_OPS:
+            l, _ = ceval(x['l'], leaf)
+            if op == '&&' and not l:
+                return (0, C_INT)
+            if op == '||' and l:
+                return (1, C_INT)
+            r, _ = ceval(x['r'], leaf)
+            return (int(r != 0), C_INT)
+        l, tl = ceval(x['l'], leaf)
+        r, tr = ceval(x['r'], leaf)
+        if op == ',':
+            return (r, tr)
+        if op in ('<<', '>>'):
+            t = _cpromote(tl)
+            l = cconv(l, t)
+            if not 0 <= r < t[0]:
+                raise CUndecided('shift count')
+            return (cconv(l << r if op == '<<' else l >> r, t), t)
+        t = _ccommon(tl, tr)
+        l, r = cconv(l, t), cconv(r, t)
+        if op in REL_OPS:
+            return (int({'<': l < r, '<=': l <= r, '>': l > r, '>=': l >= r, '==': l == r, '!=': l != r}[op]), C_INT)
+        if op == '+':
+            return (cconv(l + r, t), t)
+        if op == '-':
+            return (cconv(l - r, t), t)
+        if op == '*':
+            return (cconv(l * r, t), t)
+        if op == '&':
+            return (cconv(l & r, t), t)
+        if op == '|':
+            return (cconv(l | r, t), t)
+        if op == '^':
+            return (cconv(l ^ r, t), t)
+        if op in ('/', '%'):
+            if r == 0:
+                raise CUndecided('division by zero')
+            q = abs(l) // abs(r) * (1 if (l < 0) == (r < 0) else -1)
+            return (cconv(q if op == '/' else l - q * r, t), t)
+        raise CUndecided('operator %s' % op)
+    raise CUndecided('expression kind %s' % k)
+
+
+def _unwrap(x):
+    while isinstance(x, dict) and x.get('k') in ('load', 'cast', 'paren', 'stmtexpr') and isinstance(x.get('e'), dict):
+        x = x['e']
+    return x
+
+
+class SeqValues:
+    """Which values of a context are values of the free-running sequence counters `keys` (member chains found by role):
+      * counter leaves: a read of such a member, or a local every definition of which is a plain copy of a counter leaf (a snapshot
+        like `last = pool->seq_tail`, possibly of another width / signedness: the local's own declared type is used);
+      * derived locals: a local whose definitions are pure expressions over counter leaves (`backlog = (int32_t)(last - head)`); a
+        comparison that reads it is evaluated with the definition substituted."""
+
+    def __init__(self, g, keys):
+        self.keys = {k for k in keys if k is not None}
+        defs = {}
+        for e in g.events():
+            if e['ev'] == 'store' and e.get('op') == '=' and 'rhs' in e and varname(e['lhs']):
+                defs.setdefault(varname(e['lhs']), []).append(e['rhs'])
+        self.snaps = set()
+        grown = True
+        while grown:
+            grown = False
+            for v, rs in defs.items():
+                if v not in self.snaps and all(self.counter_leaf(r) for r in rs):
+                    self.snaps.add(v)
+                    grown = True
+        self.derived = {}
+        grown = True
+        while grown:
+            grown = False
+            for v, rs in defs.items():
+                if v in self.snaps or v in self.derived:
+                    continue
+                if all(_pure_path(r) for r in rs) and any(self.mentions(r) for r in rs):
+                    uniq = {}
+                    for r in rs:
+                        uniq.setdefault(json.dumps(r, sort_keys=True, default=str), r)
+                    self.derived[v] = list(uniq.values())
+                    grown = True
+
+    def counter_leaf(self, x):
+        x = _unwrap(x)
+        if not isinstance(x, dict):
+            return False
+        if x.get('k') == 'incdec':
+            return self.counter_leaf(x['e'])
+        if x.get('k') == 'member':
+            return chain_of(x) in self.keys
+        return x.get('k') == 'var' and x['name'] in self.snaps
+
+    def mentions(self, x):
+        """the expression reads a counter value (leaf, snapshot or derived local)"""
+        for n in walk(x):
+            if n.get('k') == 'member' and chain_of(n) in self.keys:
+                return True
+            if n.get('k') == 'var' and (n['name'] in self.snaps or n['name'] in self.derived):
+                return True
+        return False
+
+    def leaves(self, x, seen=()):
+        """(counter leaves {canon: node}, free leaves {canon: node}, derived locals read) of the expression with derived locals expanded"""
+        C, F, D = {}, {}, set()
+        def visit(n, seen):
+            if not isinstance(n, dict):
+                return
+            if _cleaf(n):
+                if n['k'] == 'var' and n['name'] in self.derived:
+                    if n['name'] in seen:
+                        raise CUndecided('local %s is defined in terms of itself' % n['name'])
+                    D.add(n['name'])
+                    for r in self.derived[n['name']]:
+                        visit(r, seen + (n['name'],))
+                elif self.counter_leaf(n):
+                    C[canon(n)] = n
+                elif n['k'] == 'call' and self.mentions(n):
+                    raise CUndecided('counter value passed to %s' % canon(n))
+                else:
+                    F[canon(n)] = n
+                return
+            for key, v in n.items():
+                if key in ('sizeof', 'type', 'to'):
+                    continue
+                if isinstance(v, dict):
+                    visit(v, seen)
+                elif isinstance(v, list):
+                    for y in v:
+                        visit(y, seen)
+        visit(x, tuple(seen))
+        return C, F, D
+
+
+def wrap_safe(x, sv, width):
+    """Is the truth of the expression x a function of the *sequence order* of the counter values it reads?  The counters are
+    free-running, `width` bits wide; their ideal (unbounded) values are pairwise less than 2^(width-1) apart.  Evaluated with C
+    arithmetic over boundary vectors:
+      * invariance under wrap: for every vector of distances between the counter leaves, the truth is the same for every base
+        value (0, 1, around 2^(width-1), up to 2^width - 1: the vectors straddle the wrap of every leaf);
+      * full width: with one leaf ahead of / behind the others by a large distance (2^(width/2), 2^(width/2)+1, 2^(width-8),
+        2^(width-1)-1) the truth does not depend on which of these distances it is (a difference truncated to a narrower type does).
+    Returns (ok, detail)."""
+    C, F, D = sv.leaves(x)
+    if len(C) < 2:
+        return None
+    import itertools
+    M = 1 << width
+    bases = [0, 1, 2, (M >> 1) - 2, (M >> 1) - 1, M >> 1, (M >> 1) + 1, M - 3, M - 2, M - 1]
+    far = [1 << (width // 2), (1 << (width // 2)) + 1, 1 << (width - 8), (M >> 1) - 1]
+    cn = sorted(C)
+    fn = sorted(F)
+    ct = {}
+    for c in cn:
+        t = ctype(C[c].get('type'))
+        if t is None:
+            raise CUndecided('type of %s: %s' % (c, C[c].get('type')))
+        ct[c] = t
+    fvals = (0, 1, 2) if len(fn) <= 2 else (0, 1)
+    if len(fn) > 6:
+        raise CUndecided('too many other operands')
+    dn = sorted(D)
+    choices = list(itertools.product(*[range(len(sv.derived[d])) for d in dn]))[:32]
+    def truth(base, delta, fa, ch):
+        pick = dict(zip(dn, ch))
+        def leaf(n, depth=0):
+            key = canon(n)
+            if n['k'] == 'var' and n['name'] in sv.derived:
+                v, t = ceval(sv.derived[n['name']][pick[n['name']]], leaf)
+                tt = ctype(n.get('type'))
+                if tt is None:
+                    raise CUndecided('type of %s' % n['name'])
+                return (cconv(v, tt), tt)
+            if key in ct:
+                return (cconv((base + delta[key]) % M, ct[key]), ct[key])
+            if key in fa:
+                t = ctype(n.get('type')) or C_INT
+                return (cconv(fa[key], t), t)
+            raise CUndecided('operand %s' % key)
+        return bool(ceval(x, leaf)[0])
+    for ch in choices:
+        for fv in itertools.product(fvals, repeat=len(fn)):
+            fa = dict(zip(fn, fv))
+            for dv in itertools.product((0, 1, 2), repeat=len(cn)):
+                delta = dict(zip(cn, dv))
+                seen = {}
+                for b in bases:
+                    seen.setdefault(truth(b, delta, fa, ch), b)
+                if len(seen) > 1:
+                    return (False, 'NOT invariant under wrap-around: with %s it is true for base = %#x and false for base = %#x'
+                            % (', '.join('%s = base + %d' % (c, delta[c]) for c in cn), seen[True], seen[False]))
+            for c in cn:
+                for sign in (1, -1):
+                    seen = {}
+                    for d in far:
+                        delta = {o: 0 for o in cn}
+                        delta[c] = sign * d
+                        for b in bases:
+                            seen.setdefault(truth(b, delta, fa, ch), (d, b))
+                    if len(seen) > 1:
+                        return (False, 'NOT the difference of the full counter width (%d bits): with %s %s the others by %#x it is %s, by %#x it is %s'
+                                % (width, c, 'ahead of' if sign > 0 else 'behind', seen[True][0], 'true', seen[False][0], 'false'))
+    return (True, 'a function of the %d-bit modular differences of %s' % (width, ', '.join(cn)))
+
+
+def counter_width(g, keys):
+    """width in bits of the sequence counters (declared type of the members)"""
+    ws = set()
+    for e in g.events():
+        for n in walk(e):
+            if n.get('k') == 'member' and chain_of(n) in keys and ctype(n.get('type')):
+                ws.add(ctype(n.get('type'))[0])
+    return max(ws) if ws else None
+
+
+def seq_compare_sites(g, sv):
+    """[(loc, expression)]: every branch condition, and every relational / logical expression inside an event, that reads counter values"""
+    out = []
+    def rel_nodes(n):
+        if not isinstance(n, dict):
+            if isinstance(n, list):
+                for y in n:
+                    yield from rel_nodes(y)
+            return
+        if n.get('k') == 'bin' and n.get('op') in REL_OPS + LOGIC_OPS and sv.mentions(n):
+            yield n
+            return
+        for key, v in n.items():
+            if key not in ('sizeof', 'type', 'to') and isinstance(v, (dict, list)):
+                yield from rel_nodes(v)
+    for bid, blk in g.blocks.items():
+        for e in blk.events:
+            for n in rel_nodes({k: v for k, v in e.items() if not k.startswith('_') and k not in ('chain', 'loc', 'fn')}):
+                out.append((e.get('loc', ''), n))
+        c = blk.term.get('cond') if blk.term else None
+        if c is not None and blk.term.get('cls') not in ('SwitchStmt', 'MethodDispatch') and sv.mentions(c):
+            loc = blk.term.get('loc') or next((e.get('loc') for e in reversed(blk.events) if e.get('loc')), '')
+            out.append((loc, c))
+    return out
